@@ -7,6 +7,7 @@ from __future__ import annotations
 
 import contextlib
 import fcntl
+import gc
 import hashlib
 import json
 import os
@@ -379,8 +380,10 @@ class Prop:
             return problems, (obs if keys is None else None)
         obs = []
         with quiet_fd1():
-            for c in cases:
+            for i, c in enumerate(cases):
                 obs.append(self.run_impl(c))
+                if i % 10 == 9:
+                    gc.collect()        # see main(): cyclic garbage is collected here, at a safe point
         reqs, spans = [], []
         for c, o in zip(cases, obs):
             rs = self.requests(c, o)
@@ -740,6 +743,10 @@ def main(argv):
         seed = int(os.environ.get("VERIF_SEED", "0"))
     except ValueError:
         seed = 0
+    # The automatic cyclic garbage collector is switched off and run by hand between cases: python-mip frees a
+    # CBC model in a finalizer that goes through cffi's (non-reentrant) library lock, and a collection that
+    # happens to start while that lock is held deadlocks the process (observed once in about forty runs of C15).
+    gc.disable()
     # address-space cap (inherited by the Lean driver): a runaway allocation ends this check with exit 2
     # instead of taking the machine down
     try:
